@@ -1459,6 +1459,13 @@ class ForAll(BinaryOperator):
     def condition(self, value):
         self.right = value
 
+    @lru_cache(maxsize=None)
+    def _required_variables_from_child_(self, child: Optional[SymbolicExpression] = None, when_true: bool = True):
+        required_vars = super()._required_variables_from_child_(child, when_true)
+        # the passes for the different universal values are intersected on every variable of the condition, selected or not.
+        required_vars.update(self.condition._unique_variables_)
+        return required_vars
+
     @property
     @lru_cache(maxsize=None)
     def condition_unique_variable_ids(self) -> List[int]:
